@@ -61,7 +61,7 @@ ASSUMPTIONS = [
 NOT_REACHED = ["plot_voronoi / summarize_spatial_statistics (take no HVSR object)", "manual_window_rejection (interactive)",
                "_plot_resonance_pdf (private, not called by any public function)", "rendered pixels (only artists and their data)",
                "a mean-fn line (this version draws only the +-1 sigma band)", "contourf_kwargs other than levels/cmap",
-               "find_peaks_kwargs other than None/{}", "more than 5 azimuths, more than 20 windows"]
+               "find_peaks_kwargs other than height / prominence", "more than 5 azimuths, more than 20 windows"]
 BUDGET = {"quick": dict(cases=560, seconds=60, shards=4),
           "thorough": dict(cases=12000, seconds=600, shards=16)}
 REQUIRED = ["mon:object-unchanged", "mon:recordings-unchanged", "mon:arguments-and-defaults-unchanged",
